@@ -112,7 +112,7 @@ def c14_2(R):
             # mss() < payload_size
             a = trace(sp, o[1])
             c = value_sources(sp, o[0])
-            if trace(sp, e.args[1]).describe() == a.describe() and ("call", "mtu::SegmentSizes::mss") in c:
+            if trace(sp, e.args[1]).key() == a.key() and ("call", "mtu::SegmentSizes::mss") in c:
                 okp = True
     if okp:
         R.ok("probe<=>size>mss", SPLIT, "is_mtu_probe = payload_size > mss()")
@@ -131,7 +131,7 @@ def c14_2(R):
         c, neg = switch_cond(sp, blk.term)
         if True:
             t0 = trace(sp, blk.term.op)
-            same = (t0.describe() == pt.describe())
+            same = (t0.key() == pt.key())
             if same:
                 be = bool_edges(sp, blk.idx)
                 tgt = be[0] if neg else be[1]
